@@ -444,7 +444,7 @@ func (c CertPolicies) Builder() (cert.ExtensionBuilder, error) {
 
 		policyIds[i] = cert.PolicyInfo{ObjectIdentifier: id}
 
-		if policyObj.Qualifiers == nil {
+		if len(policyObj.Qualifiers) == 0 {
 			continue
 		}
 
